@@ -9,10 +9,16 @@ is the reference semantics of an identifier occurrence.
 
 The full statement (“an accepted rename keeps every binding and can be undone”) is **false** for the
 code as it is: the `c16_counterexample_*` theorems exhibit accepted renames that capture a reference,
-shadow another symbol, clash across files, leave a named argument behind, or cannot be undone.  The
-`*_partial` theorems hold under the explicit decidable guards `noClash` (no lookup is disturbed by the
-new name), `noBlind` (every occurrence bound to the symbol is one the reference search reports) and
-`uniform` (all renamed occurrences were spelled like the declaration).
+shadow another symbol, clash across files, or cannot be undone.  The `*_partial` theorems hold under
+the explicit decidable guards `noClash` (no lookup is disturbed by the new name), `noBlind` (every
+occurrence whose lookup finds the symbol is one the reference search reports) and `uniform` (all
+renamed occurrences were spelled like the declaration).
+
+Three blind spots of the reference search are repaired in /repo (C16-missed-arg, C16-missed-ctask,
+C16-missed-cprog): formal names of named arguments and the task / program type names of program
+configurations are reported now.  `c16_reference_search_complete` states that for the model, the
+former counterexample is the regression theorem `c16_named_argument_renamed`, and `noBlind` no longer
+excludes those occurrences (`c16_noBlind_named_argument_and_configuration`).
 -/
 namespace TrustVerif.C16
 
@@ -91,6 +97,55 @@ theorem c16_edits_wf (P : Project) (f off : Nat) (n : Name) (es : List Edit)
           exact Nat.le_trans h4 (Nat.le_add_right _ _)
 
 /-! ## clause “no captured or newly shadowed binding” -/
+
+/-- **The reference search is complete for non-type symbols** (clause “edits … each replace one
+identifier occurrence”, together with no reference left behind): a name reference, a member access,
+the formal name of a named argument (`f(p := x)`, `fb(p := x, q => y)`, `inst.m(p := x)`), the
+`WITH task` name and the program type of a program configuration is reported as a reference to the
+non-type symbol `d` — and therefore edited by a rename of `d` — exactly when it denotes `d`.
+(Before the repairs of C16-missed-arg / -ctask / -cprog the last three kinds were never reported.) -/
+theorem c16_reference_search_complete (P : Project) (d : Decl) (o : Occ)
+    (hty : isType d.kind = false)
+    (hk : o.kind = .ref ∨ o.kind = .mem ∨ o.kind = .arg ∨ o.kind = .ctask ∨ o.kind = .cprog) :
+    refsTo P d o = (bindingId P o == some d.id) := by
+  unfold refsTo bindingId binding
+  rcases hk with hk | hk | hk | hk | hk <;> simp [hk, hty]
+
+/-- **`noBlind` does not exclude named arguments and program configurations any more**: for such an
+occurrence the `noBlind` condition (lookup finds `d` ⇒ reported) holds by itself — always for a formal
+argument name and a `WITH task` name, and for a program type name whenever `d` is a PROGRAM. -/
+theorem c16_noBlind_named_argument_and_configuration (P : Project) (d : Decl) (o : Occ)
+    (hk : o.kind = .arg ∨ o.kind = .ctask ∨ (o.kind = .cprog ∧ d.kind = .prog)) :
+    (lookup (finalList P o) o.name != some d || refsTo P d o) = true := by
+  cases hl : lookup (finalList P o) o.name with
+  | none => simp
+  | some c =>
+    by_cases hcd : c = d
+    · subst hcd
+      have hmem := lookup_mem hl
+      unfold finalList at hl hmem
+      unfold refsTo
+      rcases hk with hk | hk | ⟨hk, hp⟩
+      · simp only [hk] at hl hmem ⊢
+        cases hb : baseOf P o with
+        | none => simp [hb] at hmem
+        | some b =>
+          simp only [hb] at hl hmem
+          have hpar : c.kind = .param := by
+            unfold paramList at hmem
+            split at hmem
+            · simp at hmem
+            · simp only at hmem
+              split at hmem
+              · simp at hmem
+              · simpa using (List.mem_filter.mp hmem).2
+          simp [resolveArg, hb, hl, isType, hpar]
+      · simp only [hk] at hl hmem ⊢
+        have htask : c.kind = .task := by simpa using (List.mem_filter.mp hmem).2
+        simp [resolveCTask, hl, isType, htask]
+      · simp only [hk] at hl hmem ⊢
+        simp [resolveCProg, hl, isType, hp, Option.filter]
+    · simp [hcd]
 
 /-- **Binding preservation (partial).**  If the rename at occurrence `o` is accepted and renames `d`,
 then under `noClash` and `noBlind` every identifier occurrence of the project denotes, after the
@@ -183,6 +238,8 @@ def nFoo : Name := [70, 111, 111]         -- Foo
 def nBar : Name := [66, 97, 114]          -- Bar
 def nK : Name := [107]                    -- k
 def nR : Name := [114]                    -- r
+def nFast : Name := [70, 97, 115, 116]    -- Fast
+def nInst : Name := [73, 110, 115, 116]   -- Inst
 
 /-- ```
 CONFIGURATION Conf VAR_GLOBAL g : DINT; END_VAR END_CONFIGURATION
@@ -245,16 +302,44 @@ def argP : Project :=
              ⟨0, 4, nK, 1, .ref, none⟩, ⟨0, 24, nMain, 2, .decl, some 2⟩, ⟨0, 5, nR, 2, .decl, some 3⟩,
              ⟨0, 17, nR, 2, .ref, none⟩, ⟨0, 4, nFoo, 2, .ref, none⟩, ⟨0, 1, nK, 2, .arg, some 7⟩] }
 
-/-- **Missed reference.**  Renaming the parameter `k` to a completely fresh name `u` is accepted, the
-formal name in the named argument `Foo(k := 1)` is not edited, and afterwards it denotes nothing
-(the real compiler reports “unknown parameter 'k'”). -/
-theorem c16_counterexample_missed_named_argument :
-    ∃ P o n P', wf P = true ∧ noDupScope P = true ∧ renameOcc P o n = some P' ∧
-      ∃ (i : Nat) (o1 o2 : Occ), P.occs[i]? = some o1 ∧ P'.occs[i]? = some o2 ∧
-        bindingId P o1 = some 1 ∧ bindingId P' o2 = none :=
-  ⟨argP, ⟨0, 23, nK, 1, .decl, some 1⟩, nU, applyRename argP ⟨1, 0, 1, .param, nK, none⟩ nU,
-   by decide, by decide, by decide,
-   8, ⟨0, 1, nK, 2, .arg, some 7⟩, ⟨0, 1, nK, 2, .arg, some 7⟩, by decide, by decide, by decide, by decide⟩
+/-- **Named argument (regression witness of the repaired C16-missed-arg).**  Renaming the parameter `k`
+to the fresh name `u` is accepted, the guards hold, the edit list contains the formal name of the named
+argument `Foo(k := 1)` (the last of the three edits), the occurrence is spelled `u` afterwards and still
+denotes the parameter.  (Before the repair the formal name was left behind and denoted nothing: the real
+compiler reported “unknown parameter 'k'”.) -/
+theorem c16_named_argument_renamed :
+    wf argP = true ∧ noDupScope argP = true ∧
+    noClash argP ⟨1, 0, 1, .param, nK, none⟩ nU = true ∧ noBlind argP ⟨1, 0, 1, .param, nK, none⟩ = true ∧
+    rename argP 0 35 nU = some [⟨0, 35, 36⟩, ⟨0, 61, 62⟩, ⟨0, 122, 123⟩] ∧
+    renameOcc argP ⟨0, 23, nK, 1, .decl, some 1⟩ nU = some (applyRename argP ⟨1, 0, 1, .param, nK, none⟩ nU) ∧
+    (applyRename argP ⟨1, 0, 1, .param, nK, none⟩ nU).occs[8]? = some ⟨0, 1, nU, 2, .arg, some 7⟩ ∧
+    bindingId argP ⟨0, 1, nK, 2, .arg, some 7⟩ = some 1 ∧
+    bindingId (applyRename argP ⟨1, 0, 1, .param, nK, none⟩ nU) ⟨0, 1, nU, 2, .arg, some 7⟩ = some 1 := by
+  decide
+
+/-- ```
+CONFIGURATION Conf TASK Fast (…); PROGRAM Inst WITH Fast : Main; END_CONFIGURATION
+PROGRAM Main END_PROGRAM
+``` -/
+def cfgP : Project :=
+  { tails := [13],
+    scopes := [⟨0, 0⟩, ⟨0, 3⟩],
+    decls := [⟨0, 0, 0, .cfg, nConf, none⟩, ⟨1, 0, 1, .task, nFast, none⟩, ⟨2, 0, 1, .inst, nInst, none⟩,
+              ⟨3, 0, 0, .prog, nMain, none⟩],
+    occs := [⟨0, 14, nConf, 0, .decl, some 0⟩, ⟨0, 6, nFast, 0, .decl, some 1⟩, ⟨0, 14, nInst, 0, .decl, some 2⟩,
+             ⟨0, 6, nFast, 0, .ctask, some 1⟩, ⟨0, 3, nMain, 0, .cprog, none⟩, ⟨0, 29, nMain, 2, .decl, some 3⟩] }
+
+/-- **Program configuration (regression witness of the repaired C16-missed-ctask / C16-missed-cprog).**
+Renaming the TASK `Fast` edits `WITH Fast` too, renaming the PROGRAM `Main` edits the program type of
+the configuration too; both renames satisfy the guards, so every binding is kept.  (Before the repair
+only the declarations were edited: “unknown task 'Fast'”, “unknown program type for 'Inst'”.) -/
+theorem c16_program_configuration_renamed :
+    wf cfgP = true ∧ noDupScope cfgP = true ∧
+    rename cfgP 0 24 nU = some [⟨0, 24, 28⟩, ⟨0, 52, 56⟩] ∧
+    noClash cfgP ⟨1, 0, 1, .task, nFast, none⟩ nU = true ∧ noBlind cfgP ⟨1, 0, 1, .task, nFast, none⟩ = true ∧
+    rename cfgP 0 92 nU = some [⟨0, 59, 63⟩, ⟨0, 92, 96⟩] ∧
+    noClash cfgP ⟨3, 0, 0, .prog, nMain, none⟩ nU = true ∧ noBlind cfgP ⟨3, 0, 0, .prog, nMain, none⟩ = true := by
+  decide
 
 /-- `PROGRAM Main VAR x : DINT; END_VAR  X := x; END_PROGRAM` (one use spelled `X`) -/
 def mixP : Project :=
@@ -288,9 +373,19 @@ example : wf capP = true ∧ noDupScope capP = true ∧
 /-- … and the guards are exactly what fails on the capture witness -/
 example : noClash capP ⟨1, 0, 0, .var, nG, none⟩ nX = false := by decide
 
-/-- … and `noBlind` is what fails on the named-argument witness (while `noClash` holds) -/
-example : noClash argP ⟨1, 0, 1, .param, nK, none⟩ nU = true ∧ noBlind argP ⟨1, 0, 1, .param, nK, none⟩ = false := by
-  decide
+/-- … `noBlind` can still fail: a name reference (NameRef) that denotes a TYPE symbol is not found by the
+type-reference search (`FUNCTION_BLOCK Foo … END_FUNCTION_BLOCK  PROGRAM Main … Foo … END_PROGRAM`) -/
+example : noBlind
+    { tails := [13], scopes := [⟨0, 0⟩, ⟨0, 1⟩],
+      decls := [⟨0, 0, 0, .fb, nFoo, none⟩, ⟨1, 0, 0, .prog, nMain, none⟩],
+      occs := [⟨0, 15, nFoo, 1, .decl, some 0⟩, ⟨0, 30, nMain, 2, .decl, some 1⟩, ⟨0, 5, nFoo, 2, .ref, none⟩] }
+    ⟨0, 0, 0, .fb, nFoo, none⟩ = false := by decide
+
+/-- `c16_reference_search_complete` / `c16_noBlind_named_argument_and_configuration` are not vacuous: the
+named argument of `argP` denotes the parameter and is reported -/
+example : isType DKind.param = false ∧ refsTo argP ⟨1, 0, 1, .param, nK, none⟩ ⟨0, 1, nK, 2, .arg, some 7⟩ = true ∧
+    refsTo cfgP ⟨1, 0, 1, .task, nFast, none⟩ ⟨0, 6, nFast, 0, .ctask, some 1⟩ = true ∧
+    refsTo cfgP ⟨3, 0, 0, .prog, nMain, none⟩ ⟨0, 3, nMain, 0, .cprog, none⟩ = true := by decide
 
 /-- `c16_edits_wf` / `c16_gate` are about accepted renames; here is one with two edits -/
 example : rename capP 0 30 nU = some [⟨0, 30, 31⟩, ⟨0, 106, 107⟩] := by decide
